@@ -34,7 +34,7 @@ func (Engine) Plan(property, tier string) core.Plan {
 // passphrases: empty, ascii, unicode, long ones that differ only far into the string (in bytes: beyond 72, 128, 256),
 // one that is a prefix of another
 var passes = []string{"", "pw", "пароль✓", strings.Repeat("x", 300), "other", strings.Repeat("x", 299) + "y", strings.Repeat("x", 128) + "A",
-	strings.Repeat("x", 128), strings.Repeat("й", 70) + "1", strings.Repeat("й", 70) + "2", "pw ", strings.Repeat("q", 72) + "1", strings.Repeat("q", 72) + "2"}
+	strings.Repeat("x", 128), strings.Repeat("й", 70) + "1", strings.Repeat("й", 70) + "2", "pw ", strings.Repeat("q", 72) + "1", strings.Repeat("q", 72) + "2", " pw", "pw\n", "\u00a0pw\t"}
 
 func Generate(property, tier string, seed uint64) *Trace {
 	r := core.NewRng(seed)
@@ -101,6 +101,9 @@ func Generate(property, tier string, seed uint64) *Trace {
 			hint := "hint"
 			if r.Chance(0.5) {
 				hint = ""
+			} else if r.Chance(0.4) {
+				// what a terminal or a careless caller puts there: escape sequences, control characters, quotes, markup
+				hint = []string{"\x1b[A", "a\x00b", "\x7f", "q\"uote\\", "<b>&amp;", "\a\v", "line\nbreak", "\U0001F511 key"}[r.Intn(8)]
 			}
 			tr.Steps = append(tr.Steps, Step{Op: "export_armor", Slot: s, Slot2: armorSlot, Pass: p, Pass2: ep, Hint: hint})
 			ip := ep
